@@ -142,6 +142,8 @@ func c02Random(c *Case) {
 	var d *xdoc.Doc
 	if (c.Index/6)%8 == 5 {
 		d = dg.DeepTree()
+	} else if (c.Index/6)%8 == 6 {
+		d = dg.NameLikeTree(xgen.Names)
 	} else if dg.Chance(0.3) {
 		d = dg.WideTree(4, 5)
 	} else {
